@@ -481,6 +481,11 @@ func (n *dagScanNode) dagBlockToNodeDoc(block *coreblock.Block) (core.Doc, error
 }
 
 func (n *dagScanNode) addSignatureFieldToDoc(link cidlink.Link, commit *core.Doc) error {
+	if len(n.commitSelect.DocumentMapping.IndexesByName[request.SignatureFieldName]) == 0 {
+		// the signature field was not requested
+		return nil
+	}
+
 	txn := datastore.CtxMustGetTxn(n.planner.ctx)
 
 	sigIPLDBlock, err := txn.Blockstore().Get(n.planner.ctx, link.Cid)
